@@ -82,6 +82,8 @@ func Restore(walletPath, mnemonic string, mintsToRestore []string) (uint64, erro
 			}
 
 			var counter uint32 = 0
+			// counter that has been saved in the db for the keyset
+			var savedCounter uint32 = 0
 
 			keysetKeys, err := GetKeysetKeys(mint, keyset.Id)
 			if err != nil {
@@ -217,10 +219,12 @@ func Restore(walletPath, mnemonic string, mintsToRestore []string) (uint64, erro
 					}
 				}
 
-				// save wallet keyset with latest counter moving forward for wallet
-				if err := db.IncrementKeysetCounter(keyset.Id, counter); err != nil {
+				// save wallet keyset with latest counter moving forward for wallet.
+				// Only increment by what has not been added yet to the counter in the db
+				if err := db.IncrementKeysetCounter(keyset.Id, counter-savedCounter); err != nil {
 					return 0, fmt.Errorf("error incrementing keyset counter: %v", err)
 				}
+				savedCounter = counter
 				emptyBatches = 0
 			}
 		}
